@@ -1126,7 +1126,17 @@ impl Session {
         }
         if let Some((at, code)) = &d.err_at {
             if *at == i {
-                out.extend_from_slice(&proto::error_response("ERROR", code, "directed error"));
+                if d.err_raw.is_empty() {
+                    out.extend_from_slice(&proto::error_response("ERROR", code, "directed error"));
+                } else {
+                    let mut b = vec![b'S'];
+                    b.extend_from_slice(b"ERROR\0VERROR\0C");
+                    b.extend_from_slice(code.as_bytes());
+                    b.extend_from_slice(b"\0Mcolumn \"");
+                    b.extend_from_slice(&d.err_raw.iter().cloned().filter(|x| *x != 0).collect::<Vec<u8>>());
+                    b.extend_from_slice(b"\" does not exist\0\0");
+                    out.extend_from_slice(&proto::frame(b'E', &b));
+                }
                 self.fail_txn();
                 return Some(Flow::Error);
             }
